@@ -12,6 +12,8 @@ import (
 	"github.com/siderolabs/gen/xslices"
 	"go.yaml.in/yaml/v4"
 	"google.golang.org/protobuf/types/known/timestamppb"
+
+	"github.com/cosi-project/runtime/pkg/resource/internal/kv"
 )
 
 var _ Reference = Metadata{}
@@ -210,10 +212,7 @@ func (md *Metadata) MarshalYAML() (any, error) {
 		}
 
 		for _, fin := range md.fins {
-			finalizers[1].Content = append(finalizers[1].Content, &yaml.Node{
-				Kind:  yaml.ScalarNode,
-				Value: fin,
-			})
+			finalizers[1].Content = append(finalizers[1].Content, kv.YAMLString(fin))
 		}
 	}
 
@@ -228,26 +227,17 @@ func (md *Metadata) MarshalYAML() (any, error) {
 					Kind:  yaml.ScalarNode,
 					Value: "namespace",
 				},
-				{
-					Kind:  yaml.ScalarNode,
-					Value: md.ns,
-				},
+				kv.YAMLString(md.ns),
 				{
 					Kind:  yaml.ScalarNode,
 					Value: "type",
 				},
-				{
-					Kind:  yaml.ScalarNode,
-					Value: md.typ,
-				},
+				kv.YAMLString(md.typ),
 				{
 					Kind:  yaml.ScalarNode,
 					Value: "id",
 				},
-				{
-					Kind:  yaml.ScalarNode,
-					Value: md.id,
-				},
+				kv.YAMLString(md.id),
 				{
 					Kind:  yaml.ScalarNode,
 					Value: "version",
@@ -260,10 +250,7 @@ func (md *Metadata) MarshalYAML() (any, error) {
 					Kind:  yaml.ScalarNode,
 					Value: "owner",
 				},
-				{
-					Kind:  yaml.ScalarNode,
-					Value: md.owner,
-				},
+				kv.YAMLString(md.owner),
 				{
 					Kind:  yaml.ScalarNode,
 					Value: "phase",
@@ -393,7 +380,12 @@ func getScalarValue(val *yaml.Node) string {
 		panicFormatf("%d:%d expected scalar node, got %d", val.Line, val.Column, val.Kind)
 	}
 
-	return val.Value
+	s, err := kv.YAMLStringValue(val)
+	if err != nil {
+		panicFormatf("%d:%d failed to decode binary scalar: %w", val.Line, val.Column, err)
+	}
+
+	return s
 }
 
 func scalarParser[T any](val *yaml.Node, parser func(string) (T, error)) T {
